@@ -214,3 +214,89 @@ func init() {
 	})
 	regImpl("c03.parse", func(a []string) string { return implParseScalar(a[0], mustStr(a[1])) })
 }
+
+// --- fraction and comparator cells ---------------------------------------------------------------------
+
+func implFraction(raw string) string {
+	fd := kindFields["fraction"]
+	v, present, err := verifhook.ParseFieldValue(fd, raw, "")
+	if err != nil {
+		return "err " + errCode(err)
+	}
+	if !present {
+		return "absent"
+	}
+	m := v.Message()
+	md := m.Descriptor()
+	return "ok " + strconv.FormatInt(m.Get(md.Fields().ByName("num")).Int(), 10) + " " + strconv.FormatInt(m.Get(md.Fields().ByName("den")).Int(), 10)
+}
+
+func implComparator(raw string) string {
+	fd := kindFields["comparator"]
+	v, present, err := verifhook.ParseFieldValue(fd, raw, "")
+	if err != nil {
+		return "err " + errCode(err)
+	}
+	if !present {
+		return "absent"
+	}
+	m := v.Message()
+	md := m.Descriptor()
+	val := m.Get(md.Fields().ByName("value")).Message()
+	vd := val.Descriptor()
+	return "ok " + strconv.Itoa(int(m.Get(md.Fields().ByName("sign")).Enum())) + " " +
+		strconv.FormatInt(val.Get(vd.Fields().ByName("num")).Int(), 10) + " " + strconv.FormatInt(val.Get(vd.Fields().ByName("den")).Int(), 10)
+}
+
+var fracTokens = []string{"0", "1", "7", "12", "-", "+", "/", "%", "‰", "‱", " ", ".", "x", "2147483647", "2147483648", "-2147483648", "-2147483649", "007"}
+var cmpSigns = []string{"==", "!=", "<", "<=", ">", ">=", "=", "=>", "<>", "", "≥", "~"}
+
+func init() {
+	regStream("corr.xproto.fraction", func(r *rand.Rand, n int, emit func(string, ...string)) {
+		count := 0
+		// exhaustive token sequences up to length 4, then random longer ones
+		var rec func(p string, d int)
+		rec = func(p string, d int) {
+			emit("c03.frac", encStr(p))
+			count++
+			if d == 3 {
+				return
+			}
+			for _, t := range fracTokens {
+				rec(p+t, d+1)
+			}
+		}
+		rec("", 0)
+		for count < n {
+			switch r.Intn(3) {
+			case 0:
+				l := 1 + r.Intn(6)
+				p := ""
+				for i := 0; i < l; i++ {
+					p += fracTokens[r.Intn(len(fracTokens))]
+				}
+				emit("c03.frac", encStr(p))
+			case 1:
+				sp := func() string { return []string{"", "", "", " ", "  "}[r.Intn(5)] }
+				frac := ""
+				for i := 1 + r.Intn(4); i > 0; i-- {
+					frac += fracTokens[r.Intn(len(fracTokens))]
+				}
+				emit("c03.cmp", encStr(sp()+cmpSigns[r.Intn(len(cmpSigns))]+sp()+frac+sp()))
+			default:
+				// canonical literals
+				a, b := r.Intn(4000)-2000, r.Intn(4000)-2000
+				lit := []string{strconv.Itoa(a), strconv.Itoa(a) + "/" + strconv.Itoa(b), strconv.Itoa(a) + "%", strconv.Itoa(a) + "‰", strconv.Itoa(a) + "‱",
+					strconv.Itoa(a) + "/" + strconv.Itoa(b) + "/" + strconv.Itoa(a)}[r.Intn(6)]
+				if r.Intn(2) == 0 {
+					emit("c03.frac", encStr(lit))
+				} else {
+					emit("c03.cmp", encStr(cmpSigns[r.Intn(6)]+lit))
+				}
+			}
+			count++
+		}
+	})
+	regImpl("c03.frac", func(a []string) string { return implFraction(mustStr(a[0])) })
+	regImpl("c03.cmp", func(a []string) string { return implComparator(mustStr(a[0])) })
+}
